@@ -9,6 +9,15 @@
 (d) the sequence number bound into (a) is the receive counter (class invariant proved under C06).
 (e) send_newkeys: the six keys are derived with the letters A..F of RFC 4253 7.2 and installed in the right
     direction (so the two directions never share a MAC or cipher key), session id written once.
+(f) the primitives that decide "tag verified": crypto/cipher.py GCMCipher.verify_and_decrypt / encrypt_and_sign /
+    _update_iv (IV = RFC 5647 successor after EVERY call, also a failed one; plaintext only when the tag verified),
+    crypto/chacha.py ChachaCipher.verify_and_decrypt / encrypt_and_sign, poly1305_verify / poly1305 (payload keystream
+    only after the tag verified), mac.py _UMAC.sign / verify - library primitives uninterpreted.
+(g) sending side: encrypt_packet of the four Encryption classes (what the sender authenticates: seq, length, body,
+    padding - shared with C02).
+(h) _recv_data: a receive step that fails (MACError, ProtocolError, ...) is answered with DISCONNECT + _force_close,
+    anything else with internal_error(); _finish_recv_packet: the receive counter moves by exactly one per accepted
+    packet.  That the connection then really is closed and delivers nothing more is C10's part of the argument.
 """
 import z3
 from pyvc.contracts import *
@@ -20,7 +29,22 @@ from .common import *
 ASSUMPTIONS = [
     'MAC / AEAD unforgeability and hmac.compare_digest are cryptographic / library assumptions: the primitives are '
     'uninterpreted functions',
-    'the 16-cipher x MAC table itself is data; every suite goes through one of the four Encryption classes under contract',
+    'the 16-cipher x MAC table itself is data; every suite goes through one of the four Encryption classes under contract, '
+    'which delegate to mac.py (_HMAC, _UMAC, _NullMAC), GCMCipher and ChachaCipher - all under contract here',
+    'library contracts (trusted): AESGCM.decrypt returns the plaintext iff the tag verifies and raises InvalidTag '
+    'otherwise, AESGCM.encrypt appends a 16-byte tag; Poly1305.verify_tag returns iff tag == Poly1305(key, data) and '
+    'raises InvalidSignature otherwise; hmac.new / umac objects are functions of their arguments',
+    '"the connection ends with an integrity or protocol error": C01 proves that _recv_data answers a failed step with '
+    '_send_disconnect(code of the error) and _force_close(error) (internal_error() for anything else); that '
+    '_force_close / internal_error / _cleanup close the transport, clear the input buffer and let nothing escape is '
+    'proved under C10 (_recv_data#always(error-means-closed), _force_close#post(closed-afterwards))',
+    '_recv_packet requires need >= _recv_macsize, i.e. a peer-chosen packet_length >= blocksize - 4: a shorter '
+    '(hostile) length makes the slice arithmetic negative BEFORE the tag is checked; that state is excluded from the '
+    'contract (RFC 4253 6: a packet is at least one block), it is not proved harmless here',
+    'a verified packet whose padding_length byte is 0 (malformed per RFC 4253 6, minimum 4) is treated as the code '
+    'treats it (empty payload -> PacketDecodeError); the bytes are authenticated either way',
+    '(d) the receive counter clause is proved on _finish_recv_packet here; who else writes _recv_seq (nobody but '
+    '__init__) is the frame condition checked under C06',
 ]
 
 
@@ -120,9 +144,83 @@ recv_packet = Spec(
                               z3.Length(c.old('_packet')) == c.old('_recv_blocksize'),
                               need(c) >= c.old('_recv_macsize')),
     always=[('verified-before-release', verified_before_release),
-            ('failed-verification-is-fatal', failed_verification_is_fatal)],
+            ('failed-verification-is-fatal', failed_verification_is_fatal),
+            ('counter-advance-is-for-the-verified-sequence-number', lambda c: z3.And(
+                [z3.BoolVal(len(c.events('finish')) <= 1)] +
+                [a[1].z == c.old('_recv_seq') for _n, a in c.events('finish')] +
+                # (asynchronous handlers: the advance is deferred to the task's done-callback, same number)
+                [x['args'][2].z == c.old('_recv_seq') for x in c.calls('functools.partial')] +
+                # a packet that was accepted (True) advanced the counter exactly once, now
+                ([z3.Implies(c.result, z3.BoolVal(len(c.events('finish')) == 1))] if c.raised is None else [])))],
     raises={'MACError': True, 'CompressionError': True, 'ProtocolError': True, 'PacketDecodeError': True},
     returns='bool')
+
+
+# (d) the receive counter: +1 mod 2^32 for every accepted packet, so that a dropped / duplicated / reordered packet
+# meets a different number than the one its tag was computed over; reset only at NEWKEYS under strict kex.  (The
+# full contract of this function - handler re-arming, async rollover - is C06's; this is the C01 clause.)
+finish_recv_packet = Spec(
+    'C01', 'connection', 'SSHConnection._finish_recv_packet', self_class='SSHConnection',
+    params=dict(pkttype='int', seq='int', _task='none', is_async='bool'), classes=CONN_CLASSES,
+    stubs={'self._recv_data': noop('recv_data'), 'self._send_disconnect': noop('disconnect'),
+           'self._force_close': noop('force_close')},
+    requires=lambda c: z3.And(c.arg('seq') >= 0, c.arg('seq') < 2 ** 32, c.arg('pkttype') >= 0,
+                              c.arg('pkttype') <= 255, c.old('_recv_seq') == c.arg('seq')),
+    ensures=[('receive-counter-plus-one-mod-2^32-or-strict-reset-at-newkeys', lambda c: z3.Implies(
+        z3.And(opt_set(c, '_transport'),
+               # sequence rollover before the first keys ends the connection instead (RFC 4253 6.4 / strict kex)
+               z3.Not(z3.And(c.old('_recv_seq') == 0xffffffff, z3.Not(opt_set(c, '_recv_encryption'))))),
+        c.new('_recv_seq') == z3.If(z3.And(c.arg('pkttype') == 21, c.old('_strict_kex')), 0,
+                                    (c.arg('seq') + 1) % 2 ** 32)))],
+    raises={'ProtocolError': lambda c: z3.And(c.old('_recv_seq') == 0xffffffff,
+                                              z3.Not(opt_set(c, '_recv_encryption')))})
+
+
+# ------------------------------------------------------------------ _recv_data: a failed check ends the connection
+# "the connection ends with an integrity or protocol error": MACError / ProtocolError / PacketDecodeError raised by a
+# receive step are DisconnectErrors; _recv_data must answer with DISCONNECT carrying that error's code and force the
+# connection closed, and anything else must go to internal_error().  What _force_close / internal_error / _cleanup
+# do then (transport gone, input buffer cleared, nothing delivered afterwards, nothing escapes) is proved under C10
+# (`_recv_data#always(error-means-closed)`, `_force_close#post(closed-afterwards)`, `internal_error#post`).
+def failing_step_stub(cx):
+    code = cx.fresh('int', 'disc_code')
+    disc = VExc('DisconnectError', attrs={'code': code, 'reason': cx.fresh('str', 'disc_reason'),
+                                          'lang': cx.fresh('str', 'disc_lang')})
+    buf = cx.fresh('bytes', 'inpbuf_after')
+    return [Out(ret=cx.fresh('bool', 'handler_result'), sets={'_inpbuf': buf}),
+            Out(exc=disc, sets={'_inpbuf': buf}), Out(exc=VExc('Exception'), sets={'_inpbuf': buf})]
+
+
+failing_step_stub.modifies = ('_inpbuf',)
+
+
+def error_ends_connection(c):
+    steps = c.calls('_recv_handler')
+    failed = [x for x in steps if x['exc'] is not None]
+    order = [x['key'].rsplit('.', 1)[-1] for x in c.calls()
+             if x['key'].rsplit('.', 1)[-1] in ('_send_disconnect', '_force_close', 'internal_error')]
+    if not failed:
+        return z3.BoolVal(order == [])
+    exc = failed[0]['exc']
+    if exc.cls == 'DisconnectError':
+        sd = c.calls('_send_disconnect')
+        fc = c.calls('_force_close')
+        if order != ['_send_disconnect', '_force_close']:
+            return z3.BoolVal(False)
+        return z3.And(sd[0]['args'][0].z == exc.attrs['code'].z, z3.BoolVal(fc[0]['args'][0] is exc))
+    return z3.BoolVal(order == ['internal_error'])
+
+
+recv_data = Spec(
+    'C01', 'connection', 'SSHConnection._recv_data', self_class='SSHConnection',
+    classes={'SSHConnection': {'_inpbuf': 'bytes', '_recv_handler': 'tag'}},
+    stubs={'self._reset_keepalive_timer': noop(), 'self._recv_handler': failing_step_stub,
+           'self._send_disconnect': noop('send_disconnect'), 'self._force_close': noop('force_close'),
+           'self.internal_error': noop('internal_error')},
+    loops={1: LoopSpec(header='self._inpbuf and self._recv_handler()', modifies=['_inpbuf'],
+                       invariant=lambda c: z3.BoolVal(True))},
+    always=[('a-failed-receive-step-sends-disconnect-and-forces-the-connection-closed', error_ends_connection)],
+    raises={})
 
 
 # ------------------------------------------------------------------ encryption.py: verify before release
@@ -322,7 +420,7 @@ def umac_new_stub(cx):
 
 umac_new_stub.modifies = ()
 
-UMAC_CLASSES = {'_UMAC': {'_key': 'bytes', '_hash_size': 'int', '_umac_alg': 'opaque:UmacAlg'},
+UMAC_CLASSES = {'_UMAC': {'_key': 'bytes', '_hash_size': 'int'},      # (_umac_alg is only ever called: stub)
                 'UM': {'ghost_d': 'bytes'}}
 
 
@@ -594,6 +692,7 @@ send_newkeys = Spec(
     requires=_c02.send_newkeys.requires,
     ensures=[('rfc4253-7.2-letters-and-directions', _c02.newkeys_keys)],
     raises={'UnicodeDecodeError': True, 'AssertionError': lambda c: z3.BoolVal(False)})
+send_newkeys.model_timeout_ms = 2500
 
 # ------------------------------------------------------------------ sending side: what the sender authenticates
 # the four encrypt_packet contracts (RFC 4253 6.4 / OpenSSH etm / RFC 5647 / chacha20-poly1305) are the C02 ones,
